@@ -116,6 +116,7 @@ PROPS = {
             "stale-epoch timeout: no effect at all": "theorem (full): stale_timeout_is_noop",
             "cancelled timeout: no state change, no datagram (no TurnUndead), no notification": "theorem (full, for states whose connection state agrees with the member count): cancelled_timeout_is_noop, unsuccessful_summary_is_silent - false before the fix: commit for finding F2",
             "Down never changes": "theorem (full): down_is_terminal, C01.down_is_final",
+            "a Down identity never becomes active again; its record goes only by its forget-timer or a newer identity, over whole histories": "theorem (full): C11H.down_identity_never_active_again — from any reachable state in which x is recorded Down, over any further history of public calls (any batches, datagram bytes, timers incl. suspicion timeouts and forget-timers of other identities, change_identity, any RNG draws) without a forget-timer for x or a newer identity of its address, the address of x stays listed, its one record is x as Down or an identity of a higher generation, and x is never active; C11H.down_is_final_until_forgotten (history), down_stays_down_step (one call); Proofs/DownInv.lean; the hypothesis is the point the property names (example: after its forget-timer the identity rejoins)",
             "effective timeout: MemberDown, Down gossip, forget timer, TurnUndead; forget-timer removes exactly that identity": "theorem (full): effective_timeout (exact effects in order: forget-timer, MemberDown, Down update enqueued with full transmissions, connection state re-evaluated, TurnUndead iff notify_down_members), forget_timer_removes_exactly_that_identity, forget_timer_for_another_identity_is_noop",
         },
         RULE_HIST + "search: per-call oracle judging every ChangeSuspectToDown timer the instance itself scheduled (effective vs cancelled vs stale), plus Down-finality tracking across the history.",
@@ -268,7 +269,9 @@ PROPS = {
             "idle/defunct instances do not reply; inactive senders get at most one TurnUndead": "theorem (full): disconnected_instances_do_not_reply, inactive_sender_gets_at_most_turnundead",
             "two members that consider each other Down do not bounce TurnUndead": "theorem (full): turnundead_from_down_member_is_not_answered_when_defunct - false before the fix: commit for F3",
             "every delivered datagram causes at most a bounded number of new datagrams": "theorem (full, any bytes, any state, any RNG draws): C18H.bounded_fanout_per_datagram — at most k*(u+1)+1 datagrams, k = num_indirect_probes, u = number of member updates the datagram carries (one reply/relay/TurnUndead notice, plus one gossip round per update about the instance itself that makes it refute or renew); C18H.bare_datagram_fanout (k+1 for a datagram without updates); Proofs/FanOut.lean (Adds k n: keeps k, adds at most n datagrams; composition with explicit bounds)",
-            "global termination of the exchange among 2-3 instances in arbitrary mutual-knowledge states": "partial: the well-founded measure across instances (DESIGN.md Appendix B) is not formalised; explored by the simulator with timers held (cap 300 deliveries)",
+            "no cycle of automatic replies, at the level of datagrams": "theorem (full, any bytes, any state, any RNG draws): C18S.answers_descend — the datagrams sent while handling a delivered datagram are rounds of Gossip followed by at most one more datagram, the automatic answer, whose kind has strictly lower rank than the delivered kind (or a TurnUndead answering a TurnUndead from a sender considered down); every datagram is built by send_message around a header naming its destination; C18S.every_datagram_is_gossip_or_answer, answer_ranks_descend, rank_le_four, terminal_kinds_only_get_turnundead; Proofs/Kinds.lean (Says K: kinds of the messages in the effects), Proofs/KindsReply.lean (Answered)",
+            "gossip rounds are caused only by updates naming the receiver (or a TurnUndead)": "theorem (full): C18S.fanout_counts_updates_about_receiver — at most k*(u+t)+1 datagrams, u = updates in the datagram naming the receiver's own address, t = 1 for a TurnUndead; C18S.quiet_datagram_gets_one_answer (a datagram that says nothing about its receiver and is not a TurnUndead causes at most one datagram: exchanges of such datagrams end after at most four hops); Proofs/FanOutSelf.lean (AddsA: address-aware counting)",
+            "global termination of the exchange among 2-3 instances in arbitrary mutual-knowledge states": "partial: the well-founded measure across instances (knowledge lattice, remaining backlog transmissions, ranks in flight; DESIGN.md Appendix B) is not formalised; explored by the simulator with timers held (cap 300 deliveries)",
         },
         "search: simulator with timers held: 2-3 real instances in random mutual-knowledge states (alive, suspect, down, newer/older identity; some left the cluster), all four renew policies, notify_down_members on/off, one initial datagram of each of the 11 kinds, deliveries until the network is empty; violation when more than 300 deliveries or more than a bounded fan-out per delivery. " + RULE_HIST,
         [],
